@@ -343,8 +343,12 @@ def gen_expr(rng, dm, depth, types=TYPES, pp=False, small=False):
         return ('cond',) + tuple(gen_expr(rng, dm, depth - 1, types, pp, small) for _ in range(3))
     op = rng.choice(list(BINOPS))
     a = gen_expr(rng, dm, depth - 1, types, pp, small)
-    if op in ('<<', '>>') and rng.random() < 0.85:
-        b = ('lit', 'int', rng.choice([0, 1, 2, 3, 7, 8, 15, 16, 31, 32, 33, 63]))
+    if op in ('<<', '>>'):
+        # shift counts are always small literals: a huge count makes CPython (and vm_compute) allocate 2^count bits
+        b = ('lit', 'llong' if pp else rng.choice(['int', 'int', 'uint', 'long', 'uchar']),
+             rng.choice([0, 1, 2, 3, 7, 8, 15, 16, 31, 32, 33, 63, 64, 65]))
+        if rng.random() < 0.05:
+            b = ('un', '-', ('lit', 'llong' if pp else 'int', 1))
     elif op in ('/', '%') and rng.random() < 0.5:
         t = rng.choice(types)
         b = ('lit', t, rng.choice([v for v in (1, 2, 3, 7, -1, -2, -3, 10) if fits(dm, t, v)]))
